@@ -17,6 +17,13 @@ Dmrg2(nn) == Cat([d \in 1..2 |-> LET to == IF d = 1 THEN "last" ELSE "first"  dn
                Cat([k \in 1..(nn - 1) |-> LET n == bonds[k] IN
                     << <<"heff2", n, n + 1>>, <<"write", n>>, <<"write", n + 1>>, <<"write", IF to = "last" THEN n + 1 ELSE n>>,
                        <<"clear", n>>, <<"clear", n + 1>>, <<"update", n + dn, to>> >>])]) \o << <<"update", 0, "first">> >>
+(* ---- variational compression (compression_): the same cache, reads by project_ket_on_bra_1 / _2 (logged as heff1 / heff2: they use the same two entries).        ---- *)
+(* 1site: the central block left by orthogonalize_site_ is dropped (remove_central_) before the next projection, so no absorb inside the sweep; one absorb and one     *)
+(* refresh at the very end.  2site: the schedule of 2-site DMRG.                                                                                                        *)
+Comp1(nn) == Cat([d \in 1..2 |-> LET to == IF d = 1 THEN "last" ELSE "first" IN
+               Cat([k \in 1..nn |-> LET n == SweepTo(nn, to)[k] IN
+                    << <<"heff1", n>>, <<"write", n>>, <<"write", n>>, <<"clear", n>>, <<"update", n, to>> >>])]) \o << <<"write", 0>>, <<"update", 0, "first">> >>
+Comp2(nn) == Dmrg2(nn)
 (* ---- TDVP ---- *)
 UpdC(nn, n, to) == LET b == IF to = "last" THEN <<n, n + 1>> ELSE <<n - 1, n>> IN
                    IF b[1] # -1 /\ b[2] # nn THEN << <<"heff0", b[1], b[2]>>, <<"evolveC", b[1], -1>> >> ELSE <<>>
@@ -59,7 +66,7 @@ Tdvp12R(nn, dq) == LET r1 == T12(nn, "last", 1, FALSE, dq, <<>>)
                    <<r1[1] \o r2[1] \o << <<"clear", 0>>, <<"update", 0, "first">> >>, r2[2]>>
 RECURSIVE Multi12(_, _, _)
 Multi12(nn, k, dq) == IF k = 0 THEN <<>> ELSE LET r == Tdvp12R(nn, dq) IN r[1] \o Multi12(nn, k - 1, r[2])
-Schedule(nn, m, dq) == CASE m = "dmrg1" -> Dmrg1(nn) [] m = "dmrg2" -> Dmrg2(nn) [] m = "tdvp1" -> Tdvp1(nn) [] m = "tdvp2" -> Tdvp2(nn) [] m = "tdvp12" -> Tdvp12(nn, dq)
+Schedule(nn, m, dq) == CASE m = "dmrg1" -> Dmrg1(nn) [] m = "dmrg2" -> Dmrg2(nn) [] m = "comp1" -> Comp1(nn) [] m = "comp2" -> Comp2(nn) [] m = "tdvp1" -> Tdvp1(nn) [] m = "tdvp2" -> Tdvp2(nn) [] m = "tdvp12" -> Tdvp12(nn, dq)
 (* evolve / evolveC events only carry the time budget; they do not touch the cache *)
 Cache(evs) == SelectSeq(evs, LAMBDA e : e[1] \notin {"evolve", "evolve2", "evolveC"})
 Setup(nn) == [k \in 1..nn |-> <<"update", nn - k, "first">>]                \* setup_(to='first')
